@@ -689,6 +689,63 @@ func checkIOErrorSticky(p *Prog, r *Report) {
 			return
 		}
 	}
+	// the flag lives in a field of a small struct (set through a method)
+	if ld, ok := v.(*ssa.UnOp); ok && ld.Op == token.MUL {
+		if _, fv := fieldOfAddr(ld.X); fv != nil && fv.Pkg() != nil && isModPath(fv.Pkg().Path()) {
+			n := 0
+			for _, fn := range p.ModFuncs {
+				if fn.Blocks == nil || isTestSupport(pkgPathOfFunc(fn)) {
+					continue
+				}
+				for _, b := range fn.Blocks {
+					for _, in := range b.Instrs {
+						st, ok := in.(*ssa.Store)
+						if !ok {
+							continue
+						}
+						if _, f2 := fieldOfAddr(st.Addr); f2 != fv {
+							continue
+						}
+						n++
+						if k, isK := constInt(st.Val); isK {
+							if k == 0 {
+								bad = "the flag field is reset to 0 at " + p.Pos(st.Pos())
+							}
+							continue
+						}
+						self := func(y ssa.Value) bool {
+							l, ok := y.(*ssa.UnOp)
+							if !ok || l.Op != token.MUL {
+								return false
+							}
+							_, f3 := fieldOfAddr(l.X)
+							return f3 == fv
+						}
+						if !combinesSelf(st.Val, self, 0) {
+							bad = "the flag field is overwritten at " + p.Pos(st.Pos()) + " by `" + st.Val.String() + "`"
+						}
+					}
+				}
+			}
+			// the struct must be created once, outside the per-argument loop
+			if a, ok := ld.X.(*ssa.FieldAddr); ok {
+				if al, ok := unwrapLocal(a.X).(*ssa.Alloc); ok && al.Parent() != nil {
+					if len(loopsContaining(naturalLoops(al.Parent()), al.Block())) > 0 {
+						bad = "the flag is re-created inside the per-argument loop at " + p.Pos(al.Pos())
+					}
+				}
+			}
+			if n == 0 && bad == "" {
+				bad = "the flag field is never raised"
+			}
+			msg := ""
+			if bad != "" {
+				msg = bad + ": an error in an earlier source argument is forgotten and the receiver deletes the destination's copies of files the sender could not read"
+			}
+			r.Cond(bad == "", rule, "SendFileList: I/O error flag", pos, msg)
+			return
+		}
+	}
 	// SSA value form: leaves through phis
 	var phis []ssa.Value
 	var walk func(x ssa.Value, depth int)
